@@ -9,7 +9,9 @@
 (* result, tree, working directory and handle table and the recorded       *)
 (* verdict of the internal invariant checker is "ok" (unless the deviation *)
 (* is known to break it).  Many traces are concatenated; line i = 1 starts *)
-(* a new one.  After an unexplained line the rest of that trace is skipped *)
+(* a new one (the orchestrator appends a sentinel line so that the last    *)
+(* trace is closed too).  After an unexplained line the rest of that trace *)
+(* is skipped                                                              *)
 (* so that the traces after it are still judged.                           *)
 (* Bookkeeping in TLC registers (hence -workers 1):                        *)
 (*   1 = deviation ids used   2 = unexplained <<trace, line>> pairs        *)
@@ -20,10 +22,14 @@ EXTENDS Wrappers, Json, IOUtils
 Trace == ndJsonDeserialize(IOEnv.VERIF_TRACE)
 Impl == IOEnv.VERIF_IMPL
 
-VARIABLES l, st, bad,
-          w,    \* wrapper the calls go through: "none", "rofs", ... (set by the pseudo call "wrap")
-          mt    \* digest of all modification times of the base, as logged (must not change under a read-only wrapper)
-tvars == <<l, st, bad, w, mt>>
+VARIABLES l,
+          cands, \* the specification states the implementation may be in: a set of [st, kf] - the recorded
+                 \* observations do not always tell which admissible outcome happened (a handle opened with
+                 \* a deviating access mode looks the same until it is used), so all candidates are carried
+          bad,   \* the rest of the current trace is skipped (after an unexplained line)
+          w,     \* wrapper the calls go through: "none", "rofs", ... (set by the pseudo call "wrap")
+          mt     \* digest of all modification times of the base, as logged (must not change under a read-only wrapper)
+tvars == <<l, cands, bad, w, mt>>
 
 \* the logged projection: "same" arrives as a sequence of paths
 PostOf(ev) == {[ev.post[i] EXCEPT !.same = Range(@)] : i \in DOMAIN ev.post}
@@ -53,11 +59,17 @@ Matches(o, ev) ==
     /\ ev.srt
     /\ (o.inv = "ok" => ev.inv = "ok")
 
-Note(reg, x) == TLCSet(reg, TLCGet(reg) \cup {x})
+Note(reg, x) == TLCSet(reg, TLCGet(reg) \cup x)
 Count(reg) == TLCSet(reg, TLCGet(reg) + 1)
 
+Fresh == {[st |-> InitSt, kf |-> {}, skip |-> FALSE]}
+
+\* the deviations a finished trace needed: those of a candidate that needed fewest
+Fewest(cs) == IF cs = {} THEN {}
+              ELSE (CHOOSE c \in cs : \A d \in cs : Cardinality(c.kf) <= Cardinality(d.kf)).kf
+
 TraceInit ==
-    /\ l = 1 /\ st = InitSt /\ bad = FALSE /\ w = "none" /\ mt = ""
+    /\ l = 1 /\ cands = Fresh /\ bad = FALSE /\ w = "none" /\ mt = ""
     /\ TLCSet(1, {}) /\ TLCSet(2, {}) /\ TLCSet(3, 0) /\ TLCSet(4, 0) /\ TLCSet(5, 0)
 
 TraceStep ==
@@ -65,26 +77,30 @@ TraceStep ==
     /\ l' = l + 1
     /\ TLCSet(3, l)
     /\ LET ev == Trace[l]
-           pre == IF ev.i = 1 THEN InitSt ELSE st
-           wpre == IF ev.i = 1 THEN "none" ELSE w
-           skip == ev.i # 1 /\ bad IN
-       IF skip THEN UNCHANGED <<st, bad, w, mt>> /\ Count(5)
-       ELSE IF ev.call.op = "wrap" THEN
-            \* from here on the calls of this trace go through a wrapper around the same base
-            st' = pre /\ bad' = FALSE /\ w' = ev.call.flag[1] /\ mt' = ev.mt /\ Count(4)
-       ELSE
-       LET call == IF Impl = "osfs" THEN ev.call ELSE CleanCall(ev.call)
-           mtok == wpre # "rofs" \/ ev.mt = mt
-           match == {o \in WOutcomes(wpre, Impl, pre, call) : Matches(o, ev) /\ BaseUntouched(wpre, pre, o) /\ mtok}
-           strict == {o \in match : o.kf = ""} IN
-       /\ Count(4)
-       /\ w' = wpre /\ mt' = (IF wpre = "rofs" THEN mt ELSE ev.mt)
-       /\ IF strict # {} THEN
-              LET o == CHOOSE x \in strict : TRUE IN st' = o.st /\ bad' = FALSE
-          ELSE IF match # {} THEN
-              LET o == CHOOSE x \in match : TRUE IN
-              st' = o.st /\ bad' = o.skip /\ Note(1, o.kf)
-          ELSE st' = pre /\ bad' = TRUE /\ Note(2, <<ev.tr, ev.i>>)
+           first == ev.i = 1
+           pre == IF first THEN Fresh ELSE cands
+           wpre == IF first THEN "none" ELSE w
+           skip == ~first /\ bad IN
+       /\ (first /\ ~bad) => Note(1, Fewest(cands))     \* the previous trace ended here
+       /\ IF skip THEN UNCHANGED <<cands, bad, w, mt>> /\ Count(5)
+          ELSE IF ev.call.op = "wrap" THEN
+               \* from here on the calls of this trace go through a wrapper around the same base
+               cands' = pre /\ bad' = FALSE /\ w' = ev.call.flag[1] /\ mt' = ev.mt /\ Count(4)
+          ELSE
+          LET call == IF Impl = "osfs" THEN ev.call ELSE CleanCall(ev.call)
+              mtok == wpre # "rofs" \/ ev.mt = mt
+              nxt == UNION {{[st |-> o.st, kf |-> cd.kf \cup (IF o.kf = "" THEN {} ELSE {o.kf}), skip |-> o.skip]
+                              : o \in {x \in WOutcomes(wpre, Impl, cd.st, call) :
+                                          Matches(x, ev) /\ BaseUntouched(wpre, cd.st, x) /\ mtok}}
+                            : cd \in pre}
+              live == {c \in nxt : ~c.skip} IN
+          /\ Count(4)
+          /\ w' = wpre /\ mt' = (IF wpre = "rofs" THEN mt ELSE ev.mt)
+          /\ IF live # {} THEN cands' = live /\ bad' = FALSE
+             ELSE IF nxt # {} THEN
+                  \* explained, but only by a deviation after which the reference says nothing about the state
+                  cands' = nxt /\ bad' = TRUE /\ Note(1, Fewest(nxt))
+             ELSE cands' = pre /\ bad' = TRUE /\ Note(2, {<<ev.tr, ev.i>>}) /\ Note(1, Fewest(pre))
 
 TraceSpec == TraceInit /\ [][TraceStep]_tvars
 
